@@ -497,6 +497,12 @@ func runFixNpm(o *output, u *universe, m manifestSpec, vs []vulnSpec, cfg upgrad
 	ro.UpgradeConfig = viaStrings(cfg) // the run gets the configuration as spec strings; cfg is the intended one
 	// (1) in-situ Relax calls: ComputePatches on a traced manifest; every PatchRequirement is one Relax result
 	res0, err := guidedremediation.VerifC11ResolveManifest(ctx, cl, vm, m0, &ro)
+	// (0) the outer loop of relax.patchVulns, one traced call at a time
+	if err == nil && len(res0.Vulns) > 0 {
+		if runRelaxLoop(o, pre, cl, vm, m0, res0, cfg, &ro, info) {
+			return // ComputePatches / FixVulns would run the same non-terminating call in goroutines that cannot be stopped
+		}
+	}
 	if err == nil && len(res0.Vulns) > 0 {
 		tm, tr := guidedremediation.VerifC11TraceManifest(m0)
 		rs := &guidedremediation.VerifC11Resolved{Manifest: tm, ResolvedGraph: res0.ResolvedGraph}
@@ -541,12 +547,6 @@ func runFixNpm(o *output, u *universe, m manifestSpec, vs []vulnSpec, cfg upgrad
 			s, nt := relCoq(cl, c.name, c.old, cfg.Get(c.name), relObs{OK: true, Version: c.new})
 			o.add(pre+"rcase", s, merge(info, map[string]any{"source": "in-situ (relax.ComputePatches on a traced manifest)", "pkg": c.name,
 				"req": c.old, "observed": relObs{OK: true, Version: c.new}, "nontrivial": nt}))
-		}
-	}
-	// (1b) the outer loop of relax.patchVulns, one traced call at a time
-	if err == nil && len(res0.Vulns) > 0 {
-		if runRelaxLoop(o, pre, cl, vm, m0, res0, cfg, &ro, info) {
-			return // FixVulns would run the same non-terminating call in a goroutine
 		}
 	}
 	// (2) the whole of FixVulns, judged on the re-resolved graphs
